@@ -30,8 +30,27 @@ Definition check_profile (us : list unit) : bool :=
 (* ALL device profiles *)
 Definition check_all : bool := forallb (fun pr => check_profile (snd pr)) profiles.
 
-Lemma check_all_true : check_all = true.
+(* stated in unfolded form so that its uses are checked by syntactic equality (the kernel's
+   lazy conversion must never be made to evaluate the check itself) *)
+Lemma check_all_true : forallb (fun pr : string * list unit => check_profile (snd pr)) profiles = true.
 Proof. vm_compute. reflexivity. Qed.
+
+Lemma check_profile_spec us : check_profile us = true ->
+  forall S, In S (sublists us) -> forall f, In f features -> reportable_set S f = true ->
+  forall im, In im (members_of f) -> backed S im = true.
+Proof.
+  intros C S IS f If R im Im. unfold check_profile in C.
+  pose proof (proj1 (forallb_forall _ (sublists us)) C S IS) as C1. cbv beta in C1.
+  pose proof (proj1 (forallb_forall _ features) C1 f If) as C2. cbv beta in C2.
+  rewrite R in C2. exact (proj1 (forallb_forall _ (members_of f)) C2 im Im).
+Qed.
+
+Lemma check_all_spec name us : In (name, us) profiles -> check_profile us = true.
+Proof.
+  intro I.
+  exact (proj1 (forallb_forall (fun pr : string * list unit => check_profile (snd pr)) profiles)
+               check_all_true (name, us) I).
+Qed.
 
 (* every feature name stands for at least one interface member *)
 Lemma gen_members_nonempty :
@@ -39,11 +58,24 @@ Lemma gen_members_nonempty :
 Proof. vm_compute. reflexivity. Qed.
 
 (* every feature a unit lists is a feature name; every registered object is a truthy instance of
-   its base interface; under every profile the setups yield at most 8 SetupData *)
-Lemma gen_units_ok :
-  forallb (fun pr => forallb (fun u => u_ok u && forallb (fun f => memf f features) (u_feats u)) (snd pr)
-                     && (List.length (snd pr) <=? 8)) profiles = true.
+   its base interface *)
+Definition all_units : list unit := flat_map snd profiles.
+
+Definition unit_ok (u : unit) : bool := u_ok u && forallb (fun f => memf f features) (u_feats u).
+
+Lemma gen_units_ok : forallb unit_ok all_units = true.
 Proof. vm_compute. reflexivity. Qed.
+
+(* under every profile the setups yield at most 8 SetupData *)
+Lemma gen_units_bound : forallb (fun pr : string * list unit => List.length (snd pr) <=? 8) profiles = true.
+Proof. vm_compute. reflexivity. Qed.
+
+Lemma units_bound name us : In (name, us) profiles -> List.length us <= 8.
+Proof.
+  intro I. apply Nat.leb_le.
+  exact (proj1 (forallb_forall (fun pr : string * list unit => List.length (snd pr) <=? 8) profiles)
+               gen_units_bound (name, us) I).
+Qed.
 
 Lemma gen_prio : default_ast = text_default /\ default_rt = text_default.
 Proof. vm_compute. split; reflexivity. Qed.
@@ -148,10 +180,20 @@ Qed.
 Lemma units_ok_of name us : In (name, us) profiles ->
   forall u, In u us -> u_ok u = true.
 Proof.
-  intros I u Iu. pose proof (proj1 (forallb_forall _ _) gen_units_ok (name, us) I) as H.
-  cbv beta in H. apply andb_true_iff in H as [H _]. simpl in H.
-  pose proof (proj1 (forallb_forall _ _) H u Iu) as K. cbv beta in K.
-  apply andb_true_iff in K. tauto.
+  intros I u Iu.
+  assert (A : In u all_units) by (apply in_flat_map; exists (name, us); auto).
+  pose proof (proj1 (forallb_forall unit_ok all_units) gen_units_ok u A) as K.
+  unfold unit_ok in K. apply andb_true_iff in K. tauto.
+Qed.
+
+Lemma units_wf name us u : In (name, us) profiles -> In u us ->
+  u_ok u = true /\ forall f, In f (u_feats u) -> In f features.
+Proof.
+  intros I Iu.
+  assert (A : In u all_units) by (apply in_flat_map; exists (name, us); auto).
+  pose proof (proj1 (forallb_forall unit_ok all_units) gen_units_ok u A) as K.
+  unfold unit_ok in K. apply andb_true_iff in K as [K1 K2]. split; [exact K1|].
+  intros f If. apply memf_In. exact (proj1 (forallb_forall _ _) K2 f If).
 Qed.
 
 Lemma reg_units_conforming E i m : (forall u, In u E -> u_ok u = true) -> conforming (reg_units E i m).
@@ -173,15 +215,11 @@ Proof.
   intros Ip Sub If R i m Im. set (E := eff order []) in *.
   assert (SubE : forall v, In v E -> In v us) by (intros v Iv; apply Sub; exact (eff_subset _ _ _ Iv)).
   pose proof (reported_reportable order f R) as Rep. fold E in Rep.
-  pose proof check_all_true as Chk. unfold check_all in Chk.
-  pose proof (proj1 (forallb_forall _ _) Chk (name, us) Ip) as C0. cbv beta in C0. unfold check_profile in C0. simpl snd in C0.
-  pose proof (proj1 (forallb_forall _ _) C0 (canon us E) (filter_in_sublists _ us)) as C1. cbv beta in C1.
-  pose proof (proj1 (forallb_forall _ _) C1 f If) as C2. cbv beta in C2.
   assert (RepC : reportable_set (canon us E) f = true).
   { unfold reportable_set in *. now rewrite !(existsb_canon us E _ SubE). }
-  rewrite RepC in C2. change (forallb (backed (canon us E)) (members_of f) = true) in C2.
-  pose proof (proj1 (forallb_forall _ _) C2 (i, m) Im) as B. unfold backed in B. cbn [fst snd] in B.
-  rewrite (existsb_canon us E _ SubE) in B.
+  pose proof (check_profile_spec us (check_all_spec name us Ip) (canon us E) (filter_in_sublists _ us)
+                                 f If RepC (i, m) Im) as B.
+  unfold backed in B. cbn [fst snd] in B. rewrite (existsb_canon us E _ SubE) in B.
   apply existsb_exists in B as (u & Iu & Hu).
   split; [exists u; auto|].
   intros ord All.
